@@ -16,6 +16,11 @@ def verr (msg : String) : Except Err α := .error (.validation msg)
 def require (cond : Bool) (msg : String) : Except Err Unit :=
   if cond then .ok () else .error (.validation msg)
 
+/-- `validate_sashimi_range`: raises the base class `ValidationError`, which handlers that catch
+only `ValidateTransactionError` (the pool) do not catch -/
+def requireRange (cond : Bool) : Except Err Unit :=
+  if cond then .ok () else .error (.range "Value out of range.")
+
 /-- run a check on every element, in order, stopping at the first error -/
 def forAll (f : α → Except Err Unit) : List α → Except Err Unit
   | [] => .ok ()
@@ -136,8 +141,8 @@ def validateTxByItself (P : Params) (t : CTx) : Except Err Unit := do
   require (t.tx.inputs.length ≠ 0) "No inputs"
   require (t.tx.outputs.length ≠ 0) "No outputs"
   require ((encTx t.tx).length ≤ P.maxBlockSize) "transaction > MAX_BLOCK_SIZE"
-  require (t.tx.outputs.all fun o => sashimiInRange P o.value) "Value out of range."
-  require (sashimiInRange P (outputsValue t.tx.outputs)) "Value out of range."
+  requireRange (t.tx.outputs.all fun o => sashimiInRange P o.value)
+  requireRange (sashimiInRange P (outputsValue t.tx.outputs))
   require (decide (t.tx.inputs.map (·.ref)).Nodup) "output_reference referenced more than once"
   require (t.tx.inputs.all fun i => i.ref ≠ thinAir) "null-reference in non-coinbase"
   require (t.tx.inputs.all fun i => i.sig.isSecp) "Non-signature Signature"
